@@ -53,6 +53,12 @@ Proof.
     (split; [first [exists []; rewrite app_nil_r; reflexivity | eexists; reflexivity] | split; reflexivity]).
 Qed.
 
+Lemma local_xstep : local xstep.
+Proof.
+  intro s. unfold xstep. destruct (pc s); try (split; [exists []; rewrite app_nil_r; reflexivity | split; reflexivity]).
+  destruct (curr s); simp; (split; [exists []; rewrite app_nil_r; reflexivity | split; reflexivity]).
+Qed.
+
 Lemma st_eta s : {| bufs := bufs s; curr := curr s; chan := chan s; shl := shl s; wl := wl s; file := file s;
                     pc := pc s; todo := todo s; done := done s |} = s.
 Proof. destruct s; reflexivity. Qed.
@@ -118,28 +124,6 @@ Proof.
   unfold proj. msimp. rewrite sel_app, sel_cons_other by exact H. cbn [sel filter map]. rewrite app_nil_r. reflexivity.
 Qed.
 
-Lemma proj_mrstep t M :
-  proj t (mrstep M) =
-  match m_chan M with
-  | (u, _) :: _ => if u =? t then rstep (proj t M) else proj t M
-  | [] => proj t M
-  end.
-Proof.
-  unfold mrstep. destruct (m_chan M) as [|[u m] ch] eqn:E; [reflexivity|].
-  destruct (Nat.eq_dec u t) as [->|Hu].
-  - rewrite Nat.eqb_refl. unfold rstep. cbn [proj chan]. rewrite E, sel_cons_same.
-    destruct m as [i|i].
-    + unfold proj. msimp. rewrite sel_app, sel_cons_same. reflexivity.
-    + rewrite proj_mqueue_same. f_equal.
-      unfold proj. msimp. rewrite sel_remove_same. reflexivity.
-  - replace (u =? t) with false by (symmetry; apply Nat.eqb_neq; exact Hu).
-    destruct m as [i|i].
-    + unfold proj. msimp. rewrite E, sel_cons_other, sel_app, sel_cons_other by exact Hu. cbn [sel filter map]. rewrite app_nil_r. reflexivity.
-    + rewrite proj_mqueue_other by exact Hu.
-      unfold proj. msimp. rewrite E, sel_cons_other, sel_remove_other by exact Hu. reflexivity.
-Qed.
-
-(* ------------------------------------------------------------------ writers *)
 Lemma take_first_spec t l :
   match take_first t l with
   | None => sel t l = []
@@ -160,6 +144,37 @@ Proof.
     + rewrite sel_cons_other by exact Hu. exact IH.
 Qed.
 
+Lemma proj_mrstep t M :
+  proj t (mrstep M) =
+  match m_chan M with
+  | (u, _) :: _ => if u =? t then rstep (proj t M) else proj t M
+  | [] => proj t M
+  end.
+Proof.
+  unfold mrstep. destruct (m_chan M) as [|[u m] ch] eqn:E; [reflexivity|].
+  destruct (Nat.eq_dec u t) as [->|Hu].
+  - rewrite Nat.eqb_refl. unfold rstep. cbn [proj chan]. rewrite E, sel_cons_same.
+    destruct m as [i|i|i].
+    + unfold proj. msimp. rewrite sel_app, sel_cons_same. reflexivity.
+    + rewrite proj_mqueue_same. f_equal.
+      unfold proj. msimp. rewrite sel_remove_same. reflexivity.
+    + pose proof (take_first_spec t (m_shl M)) as H. cbn [proj shl].
+      destruct (take_first t (m_shl M)) as [[j r]|].
+      * destruct H as [H1 _]. rewrite H1. rewrite proj_mqueue_same. reflexivity.
+      * rewrite H. unfold proj. msimp. reflexivity.
+  - replace (u =? t) with false by (symmetry; apply Nat.eqb_neq; exact Hu).
+    destruct m as [i|i|i].
+    + unfold proj. msimp. rewrite E, sel_cons_other, sel_app, sel_cons_other by exact Hu. cbn [sel filter map]. rewrite app_nil_r. reflexivity.
+    + rewrite proj_mqueue_other by exact Hu.
+      unfold proj. msimp. rewrite E, sel_cons_other, sel_remove_other by exact Hu. reflexivity.
+    + pose proof (take_first_spec u (m_shl M)) as H.
+      destruct (take_first u (m_shl M)) as [[j r]|].
+      * destruct H as [_ H2]. rewrite proj_mqueue_other by exact Hu.
+        unfold proj. msimp. rewrite E, sel_cons_other by exact Hu. rewrite (H2 t) by (intro; subst; contradiction). reflexivity.
+      * unfold proj. msimp. rewrite E, sel_cons_other by exact Hu. reflexivity.
+Qed.
+
+(* ------------------------------------------------------------------ writers *)
 Lemma proj_set_thr_same t s' M :
   t < length (m_thr M) ->
   chan s' = chan (proj t M) -> shl s' = shl (proj t M) -> wl s' = wl (proj t M) ->
@@ -212,7 +227,10 @@ Proof. unfold lift_p. destruct (t <? length (m_thr M)); [cbn; apply upd_length |
 Lemma mqueue_len t i M : length (m_thr (mqueue_if t i M)) = length (m_thr M).
 Proof. unfold mqueue_if. destruct (_ && _); reflexivity. Qed.
 Lemma mrstep_len M : length (m_thr (mrstep M)) = length (m_thr M).
-Proof. unfold mrstep. destruct (m_chan M) as [|[u [i|i]] ch]; try reflexivity. rewrite mqueue_len. reflexivity. Qed.
+Proof.
+  unfold mrstep. destruct (m_chan M) as [|[u [i|i|i]] ch]; try reflexivity; [rewrite mqueue_len; reflexivity|].
+  destruct (take_first u (m_shl M)) as [[j r]|]; [rewrite mqueue_len|]; reflexivity.
+Qed.
 Lemma mwrite_len r t i M : length (m_thr (mwrite r t i M)) = length (m_thr M).
 Proof. unfold mwrite, set_thr. cbn. apply upd_length. Qed.
 Lemma mwstep_len t M : length (m_thr (mwstep t M)) = length (m_thr M).
@@ -228,7 +246,7 @@ Lemma proj_mstep single cap t l M :
   t < length (m_thr M) ->
   exists ls, proj t (mstep single cap l M) = run single cap ls (proj t M).
 Proof.
-  intro Ht. destruct l as [u|u|u|u| |u]; cbn [mstep].
+  intro Ht. destruct l as [u|u|u|u| |u|u]; cbn [mstep].
   - destruct (Nat.eq_dec u t) as [->|Hu].
     + exists [LP]. rewrite proj_lift_same by (try apply local_pstep; exact Ht). reflexivity.
     + exists []. apply proj_lift_other. intro; subst; contradiction.
@@ -246,6 +264,9 @@ Proof.
   - destruct (Nat.eq_dec u t) as [->|Hu].
     + exists [LW]. rewrite proj_mwstep_same by exact Ht. reflexivity.
     + exists []. apply proj_mwstep_other. intro; subst; contradiction.
+  - destruct (Nat.eq_dec u t) as [->|Hu].
+    + exists [LX]. rewrite proj_lift_same by (try apply local_xstep; exact Ht). reflexivity.
+    + exists []. apply proj_lift_other. intro; subst; contradiction.
 Qed.
 
 Lemma run_app single cap a b s : run single cap (a ++ b) s = run single cap b (run single cap a s).
@@ -281,8 +302,9 @@ Proof.
     symmetry. apply drain_nil. cbn [proj chan]. rewrite E. reflexivity.
   - cbn [iter]. destruct (m_chan M) as [|[u m] ch] eqn:E; [discriminate|].
     assert (Hlen : n = length (m_chan (mrstep M))).
-    { unfold mrstep. rewrite E. destruct m as [i|i]; [cbn in *; lia|].
-      unfold mqueue_if. destruct (_ && _); cbn in *; lia. }
+    { unfold mrstep. rewrite E. destruct m as [i|i|i]; [cbn in *; lia| |].
+      - unfold mqueue_if. destruct (_ && _); cbn in *; lia.
+      - destruct (take_first u (m_shl M)) as [[j r]|]; [unfold mqueue_if; destruct (_ && _)|]; cbn in *; lia. }
     rewrite (IH _ Hlen), proj_mrstep, E.
     destruct (Nat.eq_dec u t) as [->|Hu].
     + rewrite Nat.eqb_refl. symmetry. apply (drain_unfold _ m (sel t ch)).
